@@ -133,6 +133,8 @@ fn main() {
                     v.mem = cmodel::MemClass::Zp;
                 }
                 p
+            } else if args[2] == "C18" {
+                cgen::gen_program("C18", idx, &mon_c18::cfg_c18())
             } else {
                 cgen::gen_program(&args[2], idx, &cfg)
             };
